@@ -11,6 +11,9 @@ CONFIGS = [
     ({}, "motion", 192, 144, 8, 12),
     ({"tile_rows": 1}, "noise", 256, 128, 8, 8),
     ({"rate_control_mode": 1, "target_bit_rate": 200000}, "motion", 176, 144, 8, 16),
+    # large enough for every resolution-dependent stage (ME, TPL, CDEF, restoration segments) to be split into several segments
+    ({}, "fastpan", 640, 384, 8, 10),
+    ({"enable_tpl_la": 1, "hierarchical_levels": 3}, "fastpan", 128, 384, 8, 12),
 ]
 CONFIGS_THOROUGH = [
     ({"enc_mode": 6}, "motion", 128, 128, 8, 8),
